@@ -43,7 +43,7 @@ type dualProvCloseSc struct {
 	HoldAt     int    `json:"hold_at"`    // the n-th request the simulated network receives is held (-1: none)
 	HonourCtx  bool   `json:"honour_ctx"` // the held request ends with its context, or only when released
 	NClose     int    `json:"n_close"`
-	LateOps    []int  `json:"late_ops"` // calls made after the first Close call was started: 0 start 1 stop 2 once 3 clear 4 refresh
+	LateOps    []int  `json:"late_ops"`             // calls made after the first Close call was started: 0 start 1 stop 2 once 3 clear 4 refresh
 	BadOption  string `json:"bad_option,omitempty"` // "" | nil-dht | workers (constructor failure)
 }
 
